@@ -66,6 +66,8 @@ type Cmd struct {
 	started      bool
 	out          []byte
 	err          error
+	pipes        []*pipe // StdoutPipe / StderrPipe: closed by Wait, as os/exec does
+	child        *childState
 }
 
 func Command(name string, arg ...string) *Cmd {
@@ -124,6 +126,12 @@ func (c *Cmd) Output() ([]byte, error) {
 }
 
 func (c *Cmd) Run() error {
+	if len(c.pipes) > 0 {
+		if err := c.Start(); err != nil {
+			return err
+		}
+		return c.Wait()
+	}
 	out, err := c.exec()
 	c.deliver(out)
 	return err
@@ -132,6 +140,9 @@ func (c *Cmd) Run() error {
 // Start runs the command to completion at once (the simulated command is
 // executed as micro-steps of the calling goroutine); Wait reports the result.
 func (c *Cmd) Start() error {
+	if len(c.pipes) > 0 {
+		return c.startChild()
+	}
 	c.started = true
 	c.Process = &Process{Pid: 4243}
 	c.out, c.err = c.exec()
@@ -142,6 +153,19 @@ func (c *Cmd) Start() error {
 func (c *Cmd) Wait() error {
 	if !c.started {
 		return errors.New("exec: not started")
+	}
+	if c.child != nil {
+		ch := c.child
+		ch.mu.Lock()
+		for !ch.done {
+			ch.cond.Wait()
+		}
+		ch.mu.Unlock()
+		// "Wait will close the pipe after seeing the command exit": whatever the
+		// caller has not read by now is lost
+		for _, p := range c.pipes {
+			p.Close()
+		}
 	}
 	return c.err
 }
@@ -159,4 +183,162 @@ var _ = bytes.NewBuffer
 // CommandContext: the context is ignored (simulated commands cannot be cancelled from outside).
 func CommandContext(ctx interface{ Done() <-chan struct{} }, name string, arg ...string) *Cmd {
 	return Command(name, arg...)
+}
+
+// --- StdoutPipe / StderrPipe ----------------------------------------------------
+//
+// With a pipe the command is a child of its own (a simulated goroutine): it
+// writes its output into the pipe (capacity 64 KiB, blocking when full) and
+// exits; the parent reads concurrently. Built from the simulated Mutex/Cond,
+// so every interleaving of reader, child and Wait is the scheduler's choice.
+
+const pipeCapacity = 65536
+
+type pipe struct {
+	mu     simrt.Mutex
+	cond   *simrt.Cond
+	buf    []byte
+	eof    bool // write end closed (child exited)
+	closed bool // read end closed
+}
+
+func newPipe() *pipe {
+	p := &pipe{}
+	p.cond = simrt.NewCond(&p.mu)
+	return p
+}
+
+func (p *pipe) Read(b []byte) (int, error) {
+	p.mu.Lock()
+	defer p.mu.Unlock()
+	for len(p.buf) == 0 && !p.eof && !p.closed {
+		p.cond.Wait()
+	}
+	if p.closed {
+		return 0, errors.New("read |0: file already closed")
+	}
+	if len(p.buf) > 0 {
+		n := copy(b, p.buf)
+		p.buf = p.buf[n:]
+		p.cond.Broadcast()
+		return n, nil
+	}
+	return 0, io.EOF
+}
+
+func (p *pipe) Close() error {
+	p.mu.Lock()
+	p.closed = true
+	p.cond.Broadcast()
+	p.mu.Unlock()
+	return nil
+}
+
+// write: called by the child; blocks while the pipe is full; data written to a
+// pipe whose read end is closed is dropped (the child would get SIGPIPE/EPIPE).
+func (p *pipe) write(b []byte) {
+	p.mu.Lock()
+	defer p.mu.Unlock()
+	for len(b) > 0 {
+		for len(p.buf) >= pipeCapacity && !p.closed {
+			p.cond.Wait()
+		}
+		if p.closed {
+			return
+		}
+		n := pipeCapacity - len(p.buf)
+		if n > len(b) {
+			n = len(b)
+		}
+		p.buf = append(p.buf, b[:n]...)
+		b = b[n:]
+		p.cond.Broadcast()
+	}
+}
+
+func (p *pipe) closeWrite() {
+	p.mu.Lock()
+	p.eof = true
+	p.cond.Broadcast()
+	p.mu.Unlock()
+}
+
+// pipeWriter is what Cmd.Stdout / Cmd.Stderr hold after StdoutPipe / StderrPipe.
+type pipeWriter struct{ p *pipe }
+
+func (w pipeWriter) Write(b []byte) (int, error) { w.p.write(b); return len(b), nil }
+
+type childState struct {
+	mu   simrt.Mutex
+	cond *simrt.Cond
+	done bool
+}
+
+func (c *Cmd) StdoutPipe() (io.ReadCloser, error) {
+	if c.Stdout != nil {
+		return nil, errors.New("exec: Stdout already set")
+	}
+	if c.started {
+		return nil, errors.New("exec: StdoutPipe after process started")
+	}
+	p := newPipe()
+	c.pipes = append(c.pipes, p)
+	c.Stdout = pipeWriter{p}
+	return p, nil
+}
+
+func (c *Cmd) StderrPipe() (io.ReadCloser, error) {
+	if c.Stderr != nil {
+		return nil, errors.New("exec: Stderr already set")
+	}
+	if c.started {
+		return nil, errors.New("exec: StderrPipe after process started")
+	}
+	p := newPipe()
+	c.pipes = append(c.pipes, p)
+	c.Stderr = pipeWriter{p}
+	return p, nil
+}
+
+func (c *Cmd) startChild() error {
+	c.started = true
+	c.Process = &Process{Pid: 4243}
+	ch := &childState{}
+	ch.cond = simrt.NewCond(&ch.mu)
+	c.child = ch
+	script := c.script()
+	if c.Dir != "" {
+		simrt.S.HarnessFail("exec with Cmd.Dir is not modelled")
+	}
+	simrt.Go("os/exec:child", func() {
+		out, err := simrt.S.Shell.Exec(script)
+		c.ProcessState = &ProcessState{}
+		if ee, ok := err.(*simrt.ExitError); ok {
+			c.ProcessState = &ProcessState{code: ee.Code, signal: ee.Signal}
+			err = &ExitError{ProcessState: c.ProcessState}
+		}
+		// the output reaches the pipe line by line (the mini shell does not
+		// separate stdout from stderr: everything goes to stdout's writer)
+		w := c.Stdout
+		if w == nil {
+			w = c.Stderr
+		}
+		for len(out) > 0 && w != nil {
+			i := bytes.IndexByte(out, '\n') + 1
+			if i <= 0 {
+				i = len(out)
+			}
+			w.Write(out[:i])
+			out = out[i:]
+		}
+		for _, p := range c.pipes {
+			p.closeWrite()
+		}
+		ch.mu.Lock()
+		c.err = err
+		ch.done = true
+		ch.cond.Broadcast()
+		ch.mu.Unlock()
+	})
+	return nil
 }
